@@ -317,6 +317,31 @@ class World:
                         break
             elif "hash" not in fp and "fit" in self.idnt:
                 bad.append(("stale-fit-columns", "fit columns are visible although no results are stored"))
+            if "optimal_fit_E_array" in fp and not bad:
+                # a visible E(delta) scan (cached by compute_emodulus_mindelta or stored by a plateau search)
+                # must be the scan of the stored settings
+                ref2 = fresh(self.cid)
+                try:
+                    if "preprocessing" in fp:
+                        ref2.apply_preprocessing(copy.deepcopy(fp["preprocessing"]),
+                                                 copy.deepcopy(fp.get("preprocessing_options", {})))
+                    for k in sorted(k for k in nfit.FP_DEFAULT if k in fp and k not in PP_KEYS):
+                        ref2.fit_properties[k] = copy.deepcopy(fp[k])
+                    e2, d2 = ref2.compute_emodulus_mindelta()
+                except BaseException:  # noqa
+                    e2 = None
+                if e2 is not None:
+                    e1 = np.asarray(fp["optimal_fit_E_array"], dtype=float)
+                    d1 = np.asarray(fp["optimal_fit_delta_array"], dtype=float)
+                    e2, d2 = np.asarray(e2, dtype=float), np.asarray(d2, dtype=float)
+                    if e1.shape != e2.shape:
+                        bad.append(("scan-differs-from-fresh", f"the visible E(delta) scan has {e1.size} samples, "
+                                    f"a fresh copy with the stored settings (optimal_fit_num_samples="
+                                    f"{fp.get('optimal_fit_num_samples')!r}) gives {e2.size}"))
+                    elif not (np.allclose(d1, d2, rtol=1e-9, atol=0, equal_nan=True) and
+                              np.allclose(e1, e2, rtol=1e-3, atol=0, equal_nan=True)):
+                        bad.append(("scan-differs-from-fresh", "the visible E(delta) scan differs from the scan of "
+                                    "a fresh copy with the stored settings"))
         return bad
 
     def raw_unchanged(self):
